@@ -12,6 +12,7 @@ def _run(ctx, tier, label, base="MC_Adaptive_add", req=("NewEmpty", "NewFilled",
     for n, gr in enumerate(GRIDS if tier == "thorough" else GRIDS[:1]):
         ctx.replay(g, AdaptiveAdapter(gr, spelling=n, stats_cls="M"), VIEW, label=f"{label}:" + "/".join(x.name for x in gr),
                    edge_budget=50000 if tier == "quick" else 300000)
+    return g
 
 
 def add_part(ctx, tier):
@@ -29,4 +30,7 @@ def dtype_part(ctx, tier):
 
 
 def independence_part(ctx, tier):
-    _run(ctx, tier, "adaptive-independence")
+    g = _run(ctx, tier, "adaptive-independence")
+    # the same histories with histograms that become adaptive only after copies / projections were derived from them
+    ctx.replay(g, AdaptiveAdapter(GRIDS[0], spelling=1, stats_cls="M", late=True), VIEW - {"adaptive"}, label="adaptive-independence-late:" + "/".join(x.name for x in GRIDS[0]),
+               edge_budget=50000 if tier == "quick" else 300000)
